@@ -90,9 +90,9 @@ def run(tier):
         except (ValueError, IndexError):
             v.inconclusive.append("unparsable driver output for %s" % (args,))
             continue
-        for k in ("graphs", "cyclic", "acyclic", "sort_calls", "resolver_calls", "resolver_ok", "resolver_err",
+        for k in ("graphs", "cyclic", "acyclic", "sort_calls", "resolver_calls", "resolver_ok", "resolver_err", "history_steps",
                   "cases", "multi_order_cases", "sum_orders", "nviol"):
-            tot[k] = tot.get(k, 0) + st[k]
+            tot[k] = tot.get(k, 0) + st.get(k, 0)
         tot["max_orders"] = max(tot.get("max_orders", 0), st["max_orders"])
         if len(v.samples) < 6:
             v.samples.append({"mode": args[0], "args": args[1:], "first_graph": st["sample"]})
@@ -110,6 +110,7 @@ def run(tier):
     rule = ("each evaluation is one call of the real routine; a case is a (graph, requested subset) pair for the type-ordering "
             "routine or a graph for the resolver; distinct_nontrivial counts distinct cases (every enumerated id is distinct; "
             "random graphs are counted as generated); each case repeated under fresh HashSet seeds, distinct result orders "
-            "are counted per case (multi_order_cases / max_orders)")
+            "are counted per case (multi_order_cases / max_orders); history_steps = calls made on ONE instance that is grown entry by entry / "
+            "node by node / edge by edge and judged after every step against the graph as it stands (all graphs up to 3 nodes, every 7th larger one, every random one)")
     return v.finish(rule, assumptions=["bitmask closure/SCC oracle in driver/src/c20.rs", "dependency = direct edge; a pair is exempt iff both lie on a common cycle (same SCC)"],
                     exhaustive=True)
